@@ -138,13 +138,14 @@ SPECS = [
               "neighbours, random pairs and half-zero pairs; a key may be offered only if a pairing completed on this connection "
               "(monitor's flag) and the query is (0,0), or the harness's bond data base holds the pair for the connected peer; the key "
               "must be the STK (reference s1) / LTK (reference f5) the monitor computed or the bonded key; directly after a completed "
-              "pairing the key must be offered. store_bond / create_new_bond may only be called in the step that completes a pairing. "
+              "pairing the key must be offered and must be the key of that latest pairing even when the bond data base holds an older (0,0) entry for the peer (explicit histories: bonded LESC pairing, then legacy / LESC pairing of the same peer on the same or the next connection). store_bond / create_new_bond may only be called in the step that completes a pairing. "
               "distinct_nontrivial = distinct (instantiation, query class, connection situation, offered?, bonded?, protocol) outside "
               "the fresh-idle situation.",
          plan=plan_hist,
          floor={"min_evaluations": 500000, "min_distinct": 300,
                 "classes": ["zero:key", "zero:none", "bonded_pair_of_this_peer:key", "bonded_pair_of_other_peer:none", "near_bonded_pair:none",
                             "random_pair:none", "zero_ediv_random_rand:none", "random_ediv_zero_rand:none",
+                            "second_pairing_of_a_bonded_peer", "zero:new_pairing_key_while_older_bond_entry_exists",
                             "bond_created", "bond_stored_lesc_ltk", "bond_stored_distributed_ltk"]},
          assumptions=ASSUME_COMMON + [
              "after a completed pairing followed by a refused PDU or a late user answer the peripheral may keep or drop the key (if "
